@@ -47,7 +47,7 @@ def job_product(job, n1, n2, k, names1=None, names2=None):
     nd = c.native('dfa_algorithms')
     job.differential(20, lambda mv: {op: nat.dfa_json_of(c.conc(r, mv)) for op, r in res.items()},
                      lambda mv: {op: nat.dfa_json_of(getattr(nd, 'dfa_' + op)(nat.mk_dfa(v1.to_json(mv), c.native('dfa')), nat.mk_dfa(v2.to_json(mv), c.native('dfa')))) for op in ops},
-                     'dfa_product')
+                     'dfa_product', replay=('product', {'D1': v1.to_json, 'D2': v2.to_json}))
     rp = ('product', {'D1': v1.to_json, 'D2': v2.to_json})
     for op, (f, comb) in ops.items():
         rv = DfaView(res[op], None, syms)
@@ -107,7 +107,7 @@ def job_unary(job, op, n, k):
         return nat.mk_dfa(js, c.native('dfa'))
     is_nfa = op in ('reverse', 'no_prefix')
     job.differential(25, lambda mv: (nat.nfa_json_of if is_nfa else nat.dfa_json_of)(c.conc(R, mv)),
-                     lambda mv: (nat.nfa_json_of if is_nfa else nat.dfa_json_of)(getattr(nd, 'dfa_' + op)(mk_native(mv))), 'dfa_' + op)
+                     lambda mv: (nat.nfa_json_of if is_nfa else nat.dfa_json_of)(getattr(nd, 'dfa_' + op)(mk_native(mv))), 'dfa_' + op, replay=rp)
     rp = ('unary', {'D': view.to_json, 'op': op})
     rv = NfaView(R, None, syms) if is_nfa else DfaView(R, None, syms)
     if not is_nfa:
